@@ -32,8 +32,8 @@ type vpC24Prop struct {
 }
 
 func TestVP_C24_retire_requeues(t *testing.T) {
-	c := kit.New(t, "C24", "rapid: on a real node's own chain, 1..6 in-flight local proposals (aggregators + verifier entries installed exactly as an announcement does) over 2..8 transactions with overlaps; per transaction: finalized or not, body in the cache / only in the ledger store / nowhere; per proposal: snapshot time relative to now (expired after a round gap or not), commitment and response counts relative to the threshold; all transactions start in flight (queued, then retrieved); one retirement operation runs: expiry at 'now', abandon-and-retry of one proposal, or a round reset with an owned set; oracle: draining the cache queue afterwards must contain every transaction of a retired proposal that is unfinalized, has a body and is not in a still-active proposal (reset: not owned); must not contain transactions that belong only to still-active proposals, are finalized, have no body, or are owned; shared retired/active transactions may go either way; retired aggregators are gone, active ones and their verifier entries stay (reset clears all); non-trivial = >=2 proposals sharing a transaction with both a retired and an active one; distinct by scenario")
-	c.Require("expire", "retry", "reset", "shared-retired-active", "finalized-tx", "bodyless-tx", "persist-only-body", "completed-not-expired", "owned", "challenge-phase")
+	c := kit.New(t, "C24", "rapid: on a real node's own chain, 1..6 in-flight local proposals (aggregators + verifier entries installed exactly as an announcement does) over 2..8 transactions with overlaps; per transaction: finalized or not, body in the cache / only in the ledger store / nowhere; per proposal: snapshot time relative to now (expired after a round gap or not), commitment and response counts relative to the threshold; all transactions start in flight (queued, then retrieved); one retirement operation runs: expiry at 'now', abandon-and-retry of one proposal, or a round reset with an owned set; oracle: draining the cache queue afterwards must contain every transaction of a retired proposal that is unfinalized, has a body and is not in a still-active proposal (reset: not owned); must not contain transactions that belong only to still-active proposals, are finalized, have no body, or are owned; shared retired/active transactions may go either way; retired aggregators are gone, active ones and their verifier entries stay (reset clears all); no transaction remains guarded (verifier entry of the current round younger than a round gap, the duplicate rule of cosiSendAnnouncement) by a retired proposal; non-trivial = >=2 proposals sharing a transaction with both a retired and an active one; distinct by scenario")
+	c.Require("expire", "retry", "reset", "shared-retired-active", "finalized-tx", "bodyless-tx", "persist-only-body", "completed-not-expired", "owned", "challenge-phase", "retired-within-gap")
 	kit.SetChecks(kit.N(120, 3000))
 	rapid.Check(t, func(t *rapid.T) {
 		e := vpC16Start("c24")
@@ -223,6 +223,29 @@ func TestVP_C24_retire_requeues(t *testing.T) {
 			}
 			if !p.retired && (!hasAgg || !hasVer) {
 				t.Fatalf("%s: active proposal %s lost aggregator=%v verifier=%v", op, p.snap.Hash, !hasAgg, !hasVer)
+			}
+		}
+		// "eligible for proposal again" has a second half: a proposal made now in
+		// this round is deferred as a duplicate for every transaction still guarded
+		// by a verifier entry younger than a round gap (cosiSendAnnouncement). Such
+		// a guard may only belong to a proposal that is still active.
+		for ti, tx := range txs {
+			v := chain.CosiVerifiers[tx.hash]
+			if v == nil || v.Snapshot == nil {
+				continue
+			}
+			for _, p := range props {
+				if !p.retired || p.snap.Hash != v.Snapshot.Hash {
+					continue
+				}
+				if v.Snapshot.RoundNumber > 0 && v.Snapshot.RoundNumber == chain.State.CacheRound.Number && now < v.Snapshot.Timestamp+config.SnapshotRoundGap {
+					t.Fatalf("%s: transaction %d (%s) is still guarded by the verifier entry of retired proposal %s: a new proposal in round %d before %d would be deferred as a duplicate and the transaction dropped", op, ti, tx.hash, p.snap.Hash, v.Snapshot.RoundNumber, v.Snapshot.Timestamp+config.SnapshotRoundGap)
+				}
+			}
+		}
+		for _, p := range props {
+			if p.retired && !p.expired && op != "reset" && p.snap.RoundNumber > 0 {
+				classes["retired-within-gap"] = true
 			}
 		}
 		if op == "reset" && (len(chain.CosiAggregators) != 0 || len(chain.CosiVerifiers) != 0) {
